@@ -115,7 +115,10 @@ def check_source(src, case=None, ch=None, avoid=(), stats=None):
         # tokens are, unchanged code must come back byte for byte outside string literals.  If the comment body
         # holds no quote or backslash, no reading of it contains a string literal that could be re-spelled.
         body = b''.join(t.text[4 + t.value:len(t.text) - 2 - t.value] for t in ref if t.kind == 'comment' and t.value)
-        if not any(c in body for c in b'"\'\\') and b'[[' not in body and b'[=' not in body:
+        # ... and the same must hold for everything else in the text: picotool (which does not know levels) may read
+        # the rest of the opening line as comment text, so that a quoted string elsewhere starts at a different place
+        # under its reading.  With no quote and no backslash anywhere, no reading has a literal to re-spell.
+        if not any(c in src for c in b'"\'\\') and b'[[' not in body and b'[=' not in body and b']]' not in body:
             for how, chunks in chunkings(src, ch):
                 try:
                     out, _path = echo(chunks)
